@@ -19,7 +19,7 @@ package importer
 //@ ensures result1 != nil ==> result0 == nil
 
 //@ func (*LocalImporter).Import
-//@ props C09 C14
+//@ props C09 C14 C03
 //@ requires i != nil && i.codeCache != nil
 //@ requires[C09.unlocked] !ghost("lock.w", bool, &i.mutex)
 //@ havoc readFileWithExtensions
@@ -31,6 +31,20 @@ package importer
 //@ ensures[C14.cache.byname] result1 == nil ==> haskey(i.codeCache, name) && i.codeCache[name] != nil
 //@ ensures[C14.cache.fresh] result1 == nil && !old(haskey(i.codeCache, name)) ==> fresh(i.codeCache[name])
 //@ ensures[C14.cache.kept] result1 == nil && old(haskey(i.codeCache, name)) && old(i.codeCache[name]) != nil ==> i.codeCache[name] == old(i.codeCache[name])
+
+// C03: lock balance (see contracts/vm/contracts_locks_verif.go) of the importers' mutex; inventory of its users.
+//@ scan[C03.locks.importer] C03 extcalls sync.(*Mutex).Lock,sync.(*Mutex).Unlock,sync.(*Mutex).TryLock,sync.(*RWMutex).Lock,sync.(*RWMutex).Unlock,sync.(*RWMutex).RLock,sync.(*RWMutex).RUnlock: (*LocalImporter).Import (*FSImporter).Import
+
+//@ func (*FSImporter).Import
+//@ props C03 C09
+//@ requires i != nil && i.codeCache != nil
+//@ requires[C09.unlocked] !ghost("lock.w", bool, &i.mutex)
+//@ havoc readFileWithExtensions parseAndCompile
+//@ modcomps H_ E_ M G_ C_
+//@ modifies ghost("lock.w", bool, &i.mutex)
+//@ assumeframe
+//@ ensures[C09.released] !ghost("lock.w", bool, &i.mutex)
+//@ ensures[C03.lock.released] !ghost("lock.w", bool, &i.mutex)
 
 //@ scan[C09.importer.cache.users] C09 fieldwriters LocalImporter.codeCache: NewLocalImporter Import
 
